@@ -85,7 +85,7 @@ def function_ast(f):
     if fn not in _src_cache:
         with open(fn) as fh:
             src = fh.read()
-        _src_cache[fn] = ast.parse(src, fn)
+        _src_cache[fn] = _mangle_private_names(ast.parse(src, fn))
     tree = _src_cache[fn]
     cands = []
     for n in ast.walk(tree):
@@ -117,6 +117,35 @@ def function_ast(f):
         raise Unsupported("cannot locate source of %s (%d candidates)" % (getattr(f, '__qualname__', f), len(cands)))
     _src_cache[key] = (cands[0], fn)
     return _src_cache[key]
+
+
+def _mangle_private_names(tree):
+    """Python's private-name mangling: inside a class body an identifier `__x` (not ending in two underscores) in an
+    attribute reference or a name is compiled as `_Class__x`; strings (hasattr(self, "__x")) are not"""
+    class M(ast.NodeTransformer):
+        def __init__(self):
+            self.cls = []
+
+        def visit_ClassDef(self, n):
+            self.cls.append(n.name.lstrip('_'))
+            self.generic_visit(n)
+            self.cls.pop()
+            return n
+
+        def _m(self, ident):
+            if self.cls and self.cls[-1] and ident.startswith('__') and not ident.endswith('__'):
+                return '_' + self.cls[-1] + ident
+            return ident
+
+        def visit_Attribute(self, n):
+            self.generic_visit(n)
+            n.attr = self._m(n.attr)
+            return n
+
+        def visit_Name(self, n):
+            n.id = self._m(n.id)
+            return n
+    return M().visit(tree)
 
 
 def qualname_of(f):
